@@ -313,28 +313,8 @@ func (c *Client) Block(ctx context.Context, height *int64) (*ctypes.ResultBlock,
 		return nil, err
 	}
 
-	// Validate res.
-	if err := res.BlockID.ValidateBasic(); err != nil {
+	if err := c.verifyBlock(ctx, res); err != nil {
 		return nil, err
-	}
-	if err := res.Block.ValidateBasic(); err != nil {
-		return nil, err
-	}
-	if bmH, bH := res.BlockID.Hash, res.Block.Hash(); !bytes.Equal(bmH, bH) {
-		return nil, fmt.Errorf("blockID %X does not match with block %X",
-			bmH, bH)
-	}
-
-	// Update the light client if we're behind.
-	l, err := c.updateLightClientIfNeededTo(ctx, &res.Block.Height)
-	if err != nil {
-		return nil, err
-	}
-
-	// Verify block.
-	if bH, tH := res.Block.Hash(), l.Hash(); !bytes.Equal(bH, tH) {
-		return nil, fmt.Errorf("block header %X does not match with trusted header %X",
-			bH, tH)
 	}
 
 	return res, nil
@@ -347,31 +327,45 @@ func (c *Client) BlockByHash(ctx context.Context, hash []byte) (*ctypes.ResultBl
 		return nil, err
 	}
 
+	if err := c.verifyBlock(ctx, res); err != nil {
+		return nil, err
+	}
+
+	return res, nil
+}
+
+// verifyBlock validates res and checks its block against the trusted header
+// at the block's height.
+func (c *Client) verifyBlock(ctx context.Context, res *ctypes.ResultBlock) error {
+	if res == nil || res.Block == nil {
+		return errors.New("nil block")
+	}
+
 	// Validate res.
 	if err := res.BlockID.ValidateBasic(); err != nil {
-		return nil, err
+		return err
 	}
 	if err := res.Block.ValidateBasic(); err != nil {
-		return nil, err
+		return err
 	}
 	if bmH, bH := res.BlockID.Hash, res.Block.Hash(); !bytes.Equal(bmH, bH) {
-		return nil, fmt.Errorf("blockID %X does not match with block %X",
+		return fmt.Errorf("blockID %X does not match with block %X",
 			bmH, bH)
 	}
 
 	// Update the light client if we're behind.
 	l, err := c.updateLightClientIfNeededTo(ctx, &res.Block.Height)
 	if err != nil {
-		return nil, err
+		return err
 	}
 
 	// Verify block.
 	if bH, tH := res.Block.Hash(), l.Hash(); !bytes.Equal(bH, tH) {
-		return nil, fmt.Errorf("block header %X does not match with trusted header %X",
+		return fmt.Errorf("block header %X does not match with trusted header %X",
 			bH, tH)
 	}
 
-	return res, nil
+	return nil
 }
 
 // BlockResults returns the block results for the given height. If no height is
@@ -500,13 +494,27 @@ func (c *Client) TxSearch(
 	return res, nil
 }
 
+// BlockSearch calls rpcclient#BlockSearch and then verifies every block
+// returned.
 func (c *Client) BlockSearch(
 	ctx context.Context,
 	query string,
 	page, perPage *int,
 	orderBy string,
 ) (*ctypes.ResultBlockSearch, error) {
-	return c.next.BlockSearch(ctx, query, page, perPage, orderBy)
+	res, err := c.next.BlockSearch(ctx, query, page, perPage, orderBy)
+	if err != nil {
+		return nil, err
+	}
+
+	// Verify each of the blocks.
+	for _, b := range res.Blocks {
+		if err := c.verifyBlock(ctx, b); err != nil {
+			return nil, err
+		}
+	}
+
+	return res, nil
 }
 
 // Validators fetches and verifies validators.
